@@ -5,6 +5,8 @@ import (
 	"fmt"
 	"os"
 	"testing"
+
+	"verifkit/stat"
 )
 
 func TestDebug_FaultPlan(t *testing.T) {
@@ -58,4 +60,63 @@ func TestDebug_CachePlan(t *testing.T) {
 		}
 		fmt.Println(s)
 	}
+}
+
+type dbgFataler struct{ msg string }
+
+func (d *dbgFataler) Fatalf(format string, args ...any) {
+	d.msg = fmt.Sprintf(format, args...)
+	panic(d)
+}
+
+// TestDebug_C39Plan runs the plan in VERIF_DEBUG_C39PLAN up to VERIF_DEBUG_REPEAT times until c39Check fails, and
+// prints the failing run's message (with C39_DEBUG=<dir> the check also dumps events and observations there).
+func TestDebug_C39Plan(t *testing.T) {
+	p := os.Getenv("VERIF_DEBUG_C39PLAN")
+	if p == "" {
+		t.Skip()
+	}
+	b, _ := os.ReadFile(p)
+	var plan c39Plan
+	if err := json.Unmarshal(b, &plan); err != nil {
+		t.Fatal(err)
+	}
+	n := 200
+	fmt.Sscan(os.Getenv("VERIF_DEBUG_REPEAT"), &n)
+	col := stat.For("DBG", "c39")
+	fails := 0
+	for i := 0; i < n; i++ {
+		run := c39Exec(t, plan)
+		if run.Res.Frozen {
+			continue
+		}
+		tr := c39BuildTruth(run.Events)
+		msg := func() (m string) {
+			defer func() {
+				if x := recover(); x != nil {
+					if d, ok := x.(*dbgFataler); ok {
+						m = d.msg
+						return
+					}
+					panic(x)
+				}
+			}()
+			c39Check(col, &dbgFataler{}, plan, run, tr)
+			return ""
+		}()
+		if msg != "" {
+			fails++
+			if fails == 1 {
+				fmt.Printf("run %d: %s\n", i, msg)
+				for _, e := range run.Events {
+					s := e.String()
+					if len(s) > 300 {
+						s = s[:300]
+					}
+					fmt.Println(s)
+				}
+			}
+		}
+	}
+	fmt.Printf("%d of %d runs failed\n", fails, n)
 }
